@@ -17,13 +17,16 @@ RULE = ("circuits of Not/Xor/And/Or/identity blocks (by object, by name, '_not_N
         "inverters/identities with a controlling xor; (c) loops closed through on_output 'put'/'inc' events "
         "to an SBlock the chain reads (odd/even inversions: outcome known); (d) DAGs: diamond chains, "
         "ladders, random DAGs with event feedback to SBlocks read downstream, path count below/around "
-        "3 x blocks. Per burst (first pass, then 1..3 external events sent back-to-back) the recorded "
+        "3 x blocks; (e) feedback rings of FuncBlocks whose function returns non-interned ints (1000 + number of true "
+        "inputs: every evaluation yields a fresh object equal to the previous output), which rest only if 'unchanged' is "
+        "decided by equality. Per burst (first pass, then 1..3 external events sent back-to-back) the recorded "
         "eval_block order is one protocol line; the Lean model replays it (every choice must be one "
         "select_blk can make) and must reproduce: pause or instability error, number of evaluations, "
         "changed flags, all outputs, and the path bound. distinct = hash of (lines, trace); non-trivial = "
         "an instability error, or a burst after the first pass that changed a CBlock output")
 ASSUMPTIONS = [
-    "block functions are the library's Not/And/Or/Xor (identity = And/Or with one input); values are bools and small ints",
+    "block functions are the library's Not/And/Or/Xor (identity = And/Or with one input) and one scripted FuncBlock "
+    "function ('big'); values are bools, small ints and ints >= 1000",
     "the documented margin is 3 evaluations per block (simulator._MAX_EVALS_PER_BLOCK), all blocks of the circuit counted",
     "a run-away (more than 30 x limit evaluations without pause or error, or 20 s of wall time in a synchronous loop "
     "of the simulator) is cut by the harness and reported as a violation",
@@ -237,6 +240,22 @@ def gen_ring(rng):
             'bursts': _bursts(rng, sblocks, [0])}
 
 
+def gen_valring(rng):
+    """a feedback ring of FuncBlocks computing non-interned values: c0 = 1000 + truthy(s0) + truthy(c[k-1]),
+    c[j] = 1000 + truthy(c[j-1]).  Every block settles after one lap (all values >= 1000 are truthy), but every
+    evaluation returns a FRESH int object equal to the previous output: the ring rests only if 'unchanged' is
+    decided by ==, not by identity"""
+    k = rng.randint(2, 5)
+    sblocks = [{'kind': 'input', 'init': rng.choice([True, False, 0, 1])}]
+    cblocks = []
+    for j in range(k):
+        pos = [['c', (j - 1) % k]] + ([['s', 0]] if j == 0 else [])
+        cblocks.append({'fn': 'f', 'script': 'big', 'unpack': rng.random() < 0.5, 'pos': pos,
+                        'byname': rng.random() < 0.5})
+    return {'family': 'valring', 'sblocks': sblocks, 'cblocks': cblocks, 'order': _order(rng, len(cblocks)),
+            'bursts': _bursts(rng, sblocks, [0]), 'expect': 'stable'}
+
+
 def gen_evloop(rng):
     """s1 -> c0 -> ... -> c[k-1] --on_output--> s1"""
     pure = rng.random() < 0.5
@@ -346,7 +365,7 @@ def gen_dag(rng):
             'bursts': _bursts(rng, sblocks, primary, nmax=5)}
 
 
-FAMILIES = [gen_cyclic, gen_cyclic, gen_ring, gen_evloop, gen_evloop, gen_diamonds, gen_ladder, gen_dag, gen_dag]
+FAMILIES = [gen_cyclic, gen_cyclic, gen_ring, gen_evloop, gen_evloop, gen_diamonds, gen_ladder, gen_dag, gen_dag, gen_valring]
 
 FIXED = [
     # tests/test_simulator.py::test_instability_1 -- three inverters in a ring
@@ -527,7 +546,7 @@ def oracle(scn, res):
             bad = simcommon.consistency_violations(scn, b['outs'])
             if bad:
                 out.append({'clause': 'idle_consistent', 'what': f'{where}: paused although ' + '; '.join(bad[:3])})
-            if not has_events and P is None and len(scn['cblocks']) <= 8:
+            if not has_events and P is None and len(scn['cblocks']) <= 8 and scn.get('family') != 'valring':
                 souts = {f's{i}': b['outs'][f's{i}'] for i in range(ns)}
                 if not satisfiable(scn, souts):
                     out.append({'clause': 'unsat_detected',
@@ -549,5 +568,8 @@ def oracle(scn, res):
     if exp == 'unstable_first' and res['bursts'] and res['bursts'][0]['fin'] == 'idle':
         out.append({'clause': 'unsat_detected', 'what': 'event loop with an odd number of inversions paused'})
     if exp == 'stable' and any(b['fin'] == 'unstable' for b in res['bursts']):
-        out.append({'clause': 'stable_not_reported', 'what': 'event loop with an even number of inversions reported as unstable'})
+        out.append({'clause': 'stable_not_reported',
+                    'what': ('a feedback ring that settles on equal (freshly computed) values reported as unstable'
+                             if scn.get('family') == 'valring' else
+                             'event loop with an even number of inversions reported as unstable')})
     return out
